@@ -31,6 +31,9 @@ pub struct VBackend { pub files: Ghost<Map<Key, Seq<u8>>> }
 // whether a read of this file is answered by the backend in this state (it may fail for reasons of its own: network, tier);
 // one state gives one answer -- this is what "the same result without the cache" refers to
 pub uninterp spec fn BE_ANSWERS(be: VBackend, k: Key) -> bool;
+// likewise: whether the backend accepts a write / a removal of this file in this state
+pub uninterp spec fn BE_ACCEPTS_WRITE(be: VBackend, k: Key) -> bool;
+pub uninterp spec fn BE_ACCEPTS_REMOVE(be: VBackend, k: Key) -> bool;
 impl VBackend {
     pub open spec fn view(&self) -> Map<Key, Seq<u8>> { self.files@ }
     #[verifier::external_body]
@@ -61,10 +64,12 @@ impl VBackend {
     #[verifier::external_body]
     pub fn write_bytes(&mut self, tpe: FileType, id: &Id, cacheable: bool, content: BytesList) -> (r: RusticResult<()>)
         ensures r is Ok ==> final(self)@ == old(self)@.insert((tpe, *id), content.data@), r is Err ==> final(self)@ == old(self)@,
+                r is Ok <==> BE_ACCEPTS_WRITE(*old(self), (tpe, *id)),
     { unimplemented!() }
     #[verifier::external_body]
     pub fn remove(&mut self, tpe: FileType, id: &Id, cacheable: bool) -> (r: RusticResult<()>)
         ensures r is Ok ==> final(self)@ == old(self)@.remove((tpe, *id)), r is Err ==> final(self)@ == old(self)@,
+                r is Ok <==> BE_ACCEPTS_REMOVE(*old(self), (tpe, *id)),
     { unimplemented!() }
 }
 pub struct StringR { pub _opaque: u64 }
